@@ -347,6 +347,14 @@ static void gen_values (void *buf, int T, long long n, const char *cls, long lon
 			v = ((seed + i) % 120 + 1) ; v = v * ((int64_t) 1 << param) ; if (bits == 16) v = (short) v ; else v = (int) v ;
 			fv = (double) ((seed + i) % 120 + 1) / 128.0 ;
 			}
+		else if (!strcmp (cls, "steps"))
+		{	/* full scale steps in every direction (extreme deltas for the delta coders) ; low 'param' bits zero */
+			static const int t16 [14] = { 32767, 0, -32768, 1, -32767, 32766, -1, 32767, -32768, 0, 16384, -16384, -32768, 32767 } ;
+			int64_t b = t16 [(i + seed) % 14] ;
+			v = bits == 16 ? b : b * 65536 + (b > 0 ? 65535 : 0) ;
+			v = (v >> param) * ((int64_t) 1 << param) ;
+			fv = (double) b / 32768.0 ;
+			}
 		else if (!strcmp (cls, "grid"))
 		{	/* dyadic grid k/1024 in [-1,1] (exact maxima in TLC) */
 			uint64_t r = rng () ; int k = (int) (r >> 33) % 2049 - 1024 ;
